@@ -107,7 +107,144 @@ def rand_doc(rng, rich=False):
             other["n"] = rng.sample(range(-20, 20), rng.randrange(1, 4))
         if rng.random() < 0.3:
             other["inner"] = True
-    return {"top": top, "other": other}
+    return {"top": top, "other": other, "box": rand_box(rng, rich)}
+
+
+KWORDS = ["a", "b", "kk", "zed", "abc"]
+COLORS = ["red", "green", "blue"]
+
+
+def rand_box(rng, rich=False, force=False):
+    """/ce:box: lists with string / uint8 / bits / enumeration keys, leaf-lists, and instance-identifiers with key and
+    leaf-list predicates pointing at them (each compiled path holds values of the key types and a reference on every
+    such type of the SHARED schema), leafrefs, a union with an instance-identifier member. Instance-identifiers are kept
+    abstractly as lists of (node, predicates) and rendered per format."""
+    if not force and rng.random() > (0.85 if rich else 0.6):
+        return None
+    box = {}
+    ls = []
+    for k1 in rng.sample(KWORDS, rng.randrange(1, 4)):
+        e = {"k1": k1, "k2": rng.randrange(0, 201)}
+        if rng.random() < 0.8:
+            e["v"] = rng.choice(["1.5", "-9.99", "0.00", "10", "3.14"])
+        if rng.random() < 0.5:
+            e["e"] = rng.choice(COLORS[:2])
+        ls.append(e)
+    box["l"] = ls
+    ms = []
+    seen = set()
+    for _ in range(rng.randrange(0, 3)):
+        b = " ".join(x for x in BITS if rng.random() < 0.5)
+        if b not in seen:
+            seen.add(b)
+            ms.append({"id": b, "w": rng.choice(IDS)})
+    box["m"] = ms
+    box["en"] = [{"c": c} for c in rng.sample(COLORS, rng.randrange(0, 3))]
+    box["ll"] = rng.sample(range(-50, 51), rng.randrange(0, 5))
+    box["idl"] = rng.sample(IDS, rng.randrange(0, 3))
+    # instance-identifiers: (target description) -> rendered later
+    targets = []
+    for e in ls:
+        targets.append(("l", e, rng.choice(["v", "k1", None])))
+    for m in ms:
+        targets.append(("m", m, rng.choice(["w", None])))
+    for e in box["en"]:
+        targets.append(("en", e, None))
+    for x in box["ll"]:
+        targets.append(("ll", x, None))
+    for x in box["idl"]:
+        targets.append(("idl", x, None))
+    missing = [("l", {"k1": "nokey", "k2": 7}, "v"), ("ll", 49 if 49 not in box["ll"] else -49, None),
+               ("m", {"id": "b3"}, "w") if "b3" not in seen else ("en", {"c": "blue"}, None)]
+    iids = rng.sample(targets, min(len(targets), rng.randrange(1, 5)))
+    if rng.random() < 0.5:
+        iids.append(rng.choice(missing))           # require-instance false: need not exist
+    iids = [t for i, t in enumerate(iids) if t not in iids[:i]]
+    box["iid"] = iids
+    exist = [t for t in targets if t[0] == "l" and t[2] == "v" and "v" in t[1]] or [("l", ls[0], "k1")]
+    if rng.random() < 0.7:
+        box["iid1"] = rng.choice(exist)
+    r = rng.random()
+    if r < 0.4:
+        box["uiid"] = rng.choice(targets + missing)
+    elif r < 0.6:
+        box["uiid"] = rng.choice(["17", "none", "200"])
+    if rng.random() < 0.6:
+        box["lr"] = rng.choice(ls)["k1"]
+    if rng.random() < 0.5:
+        box["lr2"] = rng.choice(box["ll"] + [33])
+    return box
+
+
+def iid_text(t, json_fmt):
+    """instance-identifier of a target: XML form with prefixes ce:/cc: (declared on the element), JSON form with module names"""
+    kind, e, child = t
+    q = (lambda n: n) if json_fmt else (lambda n: "ce:" + n)
+    first = "/ce:box/" + q(kind)
+    if kind == "l":
+        p = first + "[%s='%s'][%s='%d']" % (q("k1"), e["k1"], q("k2"), e["k2"])
+    elif kind == "m":
+        p = first + "[%s='%s']" % (q("id"), e["id"])
+    elif kind == "en":
+        p = first + "[%s='%s']" % (q("c"), e["c"])
+    elif kind == "ll":
+        p = first + "[.='%d']" % e
+    else:
+        p = first + "[.='cc:%s']" % e
+    if child:
+        p += "/" + q(child)
+    return p
+
+
+def box_xml(box):
+    out = ['<box xmlns="urn:ce">']
+    for e in box["l"]:
+        out.append("<l>" + "".join("<%s>%s</%s>" % (k, xesc(e[k]), k) for k in ("k1", "k2", "v", "e") if k in e) + "</l>")
+    for m in box["m"]:
+        out.append("<m><id>%s</id><w xmlns:cc=\"urn:cc\">cc:%s</w></m>" % (m["id"], m["w"]))
+    for e in box["en"]:
+        out.append("<en><c>%s</c></en>" % e["c"])
+    for x in box["ll"]:
+        out.append("<ll>%d</ll>" % x)
+    for x in box["idl"]:
+        out.append('<idl xmlns:cc="urn:cc">cc:%s</idl>' % x)
+    ns = ' xmlns:ce="urn:ce" xmlns:cc="urn:cc"'
+    for t in box["iid"]:
+        out.append("<iid%s>%s</iid>" % (ns, xesc(iid_text(t, False))))
+    if "iid1" in box:
+        out.append("<iid1%s>%s</iid1>" % (ns, xesc(iid_text(box["iid1"], False))))
+    if "uiid" in box:
+        u = box["uiid"]
+        out.append("<uiid%s>%s</uiid>" % (ns, xesc(u if isinstance(u, str) else iid_text(u, False))))
+    if "lr" in box:
+        out.append("<lr>%s</lr>" % box["lr"])
+    if "lr2" in box:
+        out.append("<lr2>%d</lr2>" % box["lr2"])
+    out.append("</box>")
+    return "".join(out)
+
+
+def box_json(box):
+    t = {"l": box["l"]}
+    if box["m"]:
+        t["m"] = [{"id": m["id"], "w": "cc:" + m["w"]} for m in box["m"]]
+    if box["en"]:
+        t["en"] = box["en"]
+    if box["ll"]:
+        t["ll"] = box["ll"]
+    if box["idl"]:
+        t["idl"] = ["cc:" + x for x in box["idl"]]
+    t["iid"] = [iid_text(x, True) for x in box["iid"]]
+    if "iid1" in box:
+        t["iid1"] = iid_text(box["iid1"], True)
+    if "uiid" in box:
+        u = box["uiid"]
+        t["uiid"] = (int(u) if u.isdigit() else u) if isinstance(u, str) else iid_text(u, True)
+    if "lr" in box:
+        t["lr"] = box["lr"]
+    if "lr2" in box:
+        t["lr2"] = box["lr2"]
+    return t
 
 
 def xesc(s):
@@ -151,6 +288,8 @@ def to_xml(d):
         if o.get("inner"):
             out.append("<inner><q/></inner>")
         out.append("</other>")
+    if d.get("box"):
+        out.append(box_xml(d["box"]))
     return "".join(out).encode()
 
 
@@ -185,6 +324,8 @@ def to_json(d):
         if o.get("inner"):
             t["inner"] = {"q": [None]}
         j["cd:other"] = t
+    if d.get("box"):
+        j["ce:box"] = box_json(d["box"])
     return json.dumps(j).encode()
 
 
@@ -193,7 +334,16 @@ def break_doc(rng, d):
     import copy
     d = copy.deepcopy(d)
     top = d["top"]
-    k = rng.randrange(12)
+    k = rng.randrange(15)
+    if k >= 12:
+        box = d["box"] = rand_box(rng, True, True)
+        if k == 12:
+            box["iid1"] = ("l", {"k1": "gone", "k2": 1}, "v")        # required instance does not exist
+        elif k == 13:
+            box["iid"] = [("l", {"k1": "UPPER", "k2": 1}, None)]     # predicate value violates the key's pattern
+        else:
+            box["lr"] = "nothere"                                    # leafref without target
+        return ("j", to_json(d)) if rng.random() < 0.4 else ("x", to_xml(d))
     if k == 0:
         top["fl"] = "b0 b9"
     elif k == 1:
@@ -282,7 +432,11 @@ def rand_ops(rng, docs_ok, docs_bad, has_lyb, shared, n, want_err=None):
             i = rng.choice(docs_ok)
             ops.append("G%d:%s%d:%d" % (rng.randrange(2, 8), i[1], i[0], rng.choice(PARSE_OPTS)))
             continue
-        if q < 0.24:
+        if q < 0.27 and docs_ok:
+            i = rng.choice(docs_ok)
+            ops.append("U%d:%s%d" % (rng.randrange(2, 12), "l" if rng.random() < 0.3 else i[1], i[0]))
+            continue
+        if q < 0.30:
             # the thread's own temporary logging options (no logging / store only / store last) and their end
             if temp is None:
                 temp = rng.choice([0, 2, 6, 3])
@@ -338,7 +492,7 @@ def big_doc(rng, n=300):
             '<other xmlns="urn:cd">' + "".join("<n>%d</n>" % x for x in ns) + "</other>").encode()
 
 
-def make_case(rng, nthr, reps, flags, nops=(5, 11), want_err=None, shared=True, big=None, extra_threads=None):
+def make_case(rng, nthr, reps, flags, nops=(5, 11), want_err=None, shared=True, big=None, extra_threads=None, boxes=False):
     """a generated case line"""
     docs = []          # (format, bytes, valid?)
     nvalid = rng.randrange(2, 5)
@@ -346,6 +500,8 @@ def make_case(rng, nthr, reps, flags, nops=(5, 11), want_err=None, shared=True, 
     docs.append(("x", to_xml(shared_doc), True))
     for _ in range(nvalid):
         d = rand_doc(rng)
+        if boxes:
+            d["box"] = rand_box(rng, True, True)
         docs.append(("j", to_json(d), True) if rng.random() < 0.4 else ("x", to_xml(d), True))
     for _ in range(rng.randrange(2, 5)):
         f, b = break_doc(rng, rand_doc(rng))
@@ -356,7 +512,8 @@ def make_case(rng, nthr, reps, flags, nops=(5, 11), want_err=None, shared=True, 
     for t in range(nthr):
         thr.append(",".join(rand_ops(rng, ok, bad, set(ok), shared, rng.randrange(*nops), want_err)))
     if extra_threads:
-        thr = extra_threads(ok, bad, len(docs)) + thr[len(extra_threads(ok, bad, len(docs))):]
+        special = extra_threads(ok, bad, len(docs))
+        thr = special + thr[len(special):]
     if big:
         docs.append(("x", big, True))
     okidx = set(i for i, d in enumerate(docs) if d[2])
@@ -392,7 +549,7 @@ def witness_canon():
 # ------------------------------------------------------------------------------------------------
 # output parsing / judging
 # ------------------------------------------------------------------------------------------------
-_F = re.compile(r"^(ok|DIFF \S+) dict=(\d+):(\d+) leak=(\d+):(\d+) lock=(\d+):(\d+)(@\S+)? dangling=(\d+) glob=(\S+) pok=(\d+)/(\d+)( aloneleak=\d+)?"
+_F = re.compile(r"^(ok|DIFF \S+) dict=(\d+):(\d+) leak=(\d+):(\d+) lock=(\d+):(\d+)(@\S+)? dangling=(\d+) glob=(\S+) refs=(\S+) pok=(\d+)/(\d+)( aloneleak=\d+)?"
                 r"(?: left=[0-9a-f-]+)*(?: res=(\S+))?(?: tsan=(\S+))?$")
 
 CANON_PRINT = re.compile(r"^lyplg_type_print_(bits|binary|date_and_time|ipv4_address|ipv4_address_no_zone|ipv4_prefix|"
@@ -407,10 +564,10 @@ def parse_out(out):
         return None
     res = {"verdict": m.group(1), "dict": (int(m.group(2)), int(m.group(3))), "leak": (int(m.group(4)), int(m.group(5))),
            "lock": (int(m.group(6)), int(m.group(7))), "lock_where": m.group(8) or "", "dangling": int(m.group(9)),
-           "glob": m.group(10), "pok": (int(m.group(11)), int(m.group(12))),
-           "aloneleak": m.group(13), "res": m.group(14) or "", "tsan": []}
-    if m.group(15) and m.group(15) not in ("0", "?"):
-        for rep in m.group(15).split("|")[1:]:
+           "glob": m.group(10), "refs": m.group(11), "pok": (int(m.group(12)), int(m.group(13))),
+           "aloneleak": m.group(14), "res": m.group(15) or "", "tsan": []}
+    if m.group(16) and m.group(16) not in ("0", "?"):
+        for rep in m.group(16).split("|")[1:]:
             kind, _, stacks = rep.partition("~")
             st = [s.split("<") for s in stacks.split("/")]
             while len(st) < 2:
@@ -629,7 +786,7 @@ class ConcModel(Comp):
         r = parse_out(out)
         if r is None:
             return "IMPL:" + out
-        if r["verdict"] != "ok" or r["glob"] != "ok":
+        if r["verdict"] != "ok" or r["glob"] != "ok" or r["refs"] != "ok":
             return "IMPL:" + out
         # the dangling= field of the driver is informational (arena of record pointers reallocated); a use of a dangling
         # record would show as a lost error record, i.e. as a DIFF above
@@ -695,6 +852,19 @@ class ConcSerial:
                 return g + c
             clean.append(make_case(rng, min(8, ng + nc + rng.randrange(0, 3)), 2, "p", shared=False, big=big_doc(rng),
                                    extra_threads=special))
+        for _ in range(3 * n):
+            # reference counts of the shared schema touched from private trees: every thread parses documents full of
+            # instance-identifiers with key / leaf-list predicates, leafrefs, unions, identityrefs, bits and enumeration keys
+            # and duplicates, compares, diffs, merges and frees them in a tight loop
+            def refs_threads(ok, bad, n_docs, rng=rng):
+                k = rng.randrange(2, 7)
+                out = []
+                for _ in range(k):
+                    picks = [rng.choice(ok) for _ in range(rng.randrange(1, 4))]
+                    out.append(",".join("U%d:%s%d" % (rng.choice([60, 120, 200]), "l" if rng.random() < 0.25 else i[1], i[0])
+                                        for i in picks))
+                return out
+            clean.append(make_case(rng, rng.randrange(6, 9), 2, "p", shared=False, extra_threads=refs_threads, boxes=True))
         for _ in range(4 * n):          # lazily cached canonical strings of the shared tree are generated by the threads
             lazy.append(make_case(rng, rng.randrange(2, 6), reps, "p"))
         for _ in range(3 * n):          # first errors of >= 6 threads while others read theirs (table arena resized)
@@ -726,6 +896,9 @@ class ConcSerial:
         if ":" in flags and r["pok"][0] < int(flags.split(":")[1]):
             return (None, "a document that is valid by construction was rejected or failed in the pipeline when run alone "
                           "(%d good parse operations, %s expected)" % (r["pok"][0], flags.split(":")[1]))
+        if r["refs"] != "ok":
+            return (None, "reference count of a compiled type of the shared schema changed (leaf %s): leak or early release "
+                          "at ly_ctx_destroy" % r["refs"])
         if r["glob"] != "ok":
             return (None, "process-wide / per-context state changed by the concurrent run: %s" % r["glob"])
         if r["aloneleak"]:
